@@ -1,17 +1,30 @@
 """The facts of waddrmgr/scoped_manager.go that the C08 model depends on,
 regenerated from the repository's current source into coq/Generated/AddrCache.v.
-One is a parameter of the model (both values are covered by the theorems):
 
-  next_caches_read_back : bool
+Three are PARAMETERS of the model (coq/Addr/MemDisk.v, [params]); the theorems
+are proved for every value, so either value is a legitimate state of the source
+- in particular REPAIRING one of the findings below turns a known finding into
+silence, not into an alarm:
+
+  next_caches_read_back : bool                      (p_rb, finding S4 - repaired)
       true  - nextAddresses reads every address it has just written back with
               loadAndCacheAddress, i.e. INTO the address cache, before the
-              database transaction commits (pinned code, finding S4);
+              database transaction commits;
       false - the read-back goes through a loader that leaves the cache alone
               (loadAddress) and the cache is only filled by the OnCommit
               closure.
+  extend_updates_memory_eagerly : bool              (p_ee, finding S10)
+      true  - extendAddresses assigns s.addrs / next index / last address
+              directly, before commit;
+      false - it assigns them only inside a closure registered with the
+              transaction's OnCommit (as nextAddresses does).
+  rename_updates_memory_eagerly : bool              (p_re, finding S11)
+      true  - RenameAccount assigns acctInfo.acctName directly, before commit;
+      false - only inside a closure registered with OnCommit.
 
-Three are assumptions the model transcribes; Properties/C08.v carries the
-obligation that each of them is `true` (C08_model_assumptions_hold_in_source):
+Three are assumptions the model transcribes without a parameter;
+Properties/C08.v carries the obligation that each of them is `true`
+(C08_model_assumptions_hold_in_source):
 
   next_commits_memory_in_closure
       the next indices and the last addresses are assigned ONLY inside the
@@ -19,12 +32,13 @@ obligation that each of them is `true` (C08_model_assumptions_hold_in_source):
       the new addresses to s.addrs, and the closure is registered with the
       database transaction (ns.Tx().OnCommit(onCommit), directly or through a
       local holding ns.Tx());
-  extend_updates_memory_eagerly
-      extendAddresses assigns s.addrs / next index / last address directly
-      (no OnCommit);
-  rename_updates_cached_name
-      RenameAccount assigns acctInfo.acctName directly, once, after its type
-      switch over default / watch-only account rows.
+  rename_covers_both_row_kinds
+      RenameAccount updates the cached name once, after its type switch over
+      default / watch-only account rows (both kinds get the same update);
+  extend_records_fingerprint
+      the DerivationPath extendAddresses builds carries
+      MasterKeyFingerprint: acctInfo.masterKeyFingerprint (finding S14,
+      repaired by 7aeeade).
 
 Two paths (the Generated file says which ran: `(* facts source: source | probe *)`):
 
@@ -39,6 +53,9 @@ Two paths (the Generated file says which ran: `(* facts source: source | probe *
 
 main() raises only if BOTH paths fail (the message carries both reasons);
 bin/extract turns that into a broken obligation of C08, never a crash.
+Independently of this module the harness measures the three parameters on the
+built code at start-up, and lib/c08.py fails the check if they differ from what
+was generated here.
 """
 import hashlib, json, os, re, shutil, subprocess
 
@@ -129,19 +146,58 @@ def source_facts(repo):
                            "(loadAndCacheAddress x%d, loadAddress x%d)" % (path, cached, plain))
 
     eb = func_body(src, r"^func \(s \*ScopedKeyManager\) extendAddresses\(", path)
-    if "OnCommit" in eb or len(ASSIGN_IDX.findall(eb)) != 4 or not ASSIGN_ADDRS.search(eb):
-        raise ExtractError("%s: extendAddresses no longer updates cache, indices and last addresses directly" % path)
+    extend_eager = eager_or_deferred(eb, "extendAddresses", path,
+                                     lambda t: len(ASSIGN_IDX.findall(t)), 4, lambda t: bool(ASSIGN_ADDRS.search(t)))
+    # the derivation path of the addresses it builds
+    m = re.search(r"DerivationPath\s*\{([^{}]*)\}", eb)
+    if not m:
+        raise ExtractError("%s: extendAddresses: DerivationPath literal not found" % path)
+    extend_fp = bool(re.search(r"MasterKeyFingerprint\s*:\s*acctInfo\.masterKeyFingerprint\b", m.group(1)))
+
     rn = func_body(src, r"^func \(s \*ScopedKeyManager\) RenameAccount\(", path)
-    assigns = [m.start() for m in re.finditer(r"acctInfo\.acctName\s*=[^=]", rn)]
-    if "OnCommit" in rn or not assigns:
-        raise ExtractError("%s: RenameAccount no longer assigns the cached name directly" % path)
+    rename_eager = eager_or_deferred(rn, "RenameAccount", path, lambda t: len(ASSIGN_NAME.findall(t)), 1, lambda t: True)
     # one assignment, AFTER the type switch over the row kind (so that it
     # serves default and watch-only account rows alike)
+    assigns = [m.start() for m in ASSIGN_NAME.finditer(rn)]
     dflt = rn.rfind("default:")
-    if len(assigns) != 1 or dflt < 0 or assigns[0] < dflt or "case *dbWatchOnlyAccountRow" not in rn[:dflt]:
+    if dflt < 0 or assigns[0] < dflt or "case *dbWatchOnlyAccountRow" not in rn[:dflt]:
         raise ExtractError("%s: RenameAccount: the cached name is not updated once, after the row type switch "
                            "(model: both account kinds get the same update)" % path)
-    return dict(rb=rb, next_in_closure=True, extend_eager=True, rename_eager=True)
+    return dict(rb=rb, next_in_closure=True, extend_eager=extend_eager, rename_eager=rename_eager,
+                rename_both=True, extend_fp=extend_fp)
+
+
+ASSIGN_NAME = re.compile(r"acctInfo\.acctName\s*=[^=]")
+
+
+def eager_or_deferred(body, fn, path, count, want, extra):
+    """True: the `want` memory assignments (and `extra`) are made directly, no OnCommit in the function.
+    False: all of them sit inside ONE func literal that is registered exactly once with the transaction's OnCommit,
+    none outside.  Anything else: not a shape the model has."""
+    n_on = len(re.findall(r"OnCommit\(", body))
+    if n_on == 0:
+        if count(body) == want and extra(body):
+            return True
+        raise ExtractError("%s: %s: neither the direct memory update (%d assignments) nor an OnCommit closure" % (path, fn, want))
+    # closures: `name := func() {` or `func() {` literals that hold memory assignments
+    outside, inside, names = body, "", []
+    for m in list(re.finditer(r"(?:(\w+)\s*:=\s*)?func\(\)\s*\{", body)):
+        ci, cj = closure_body(body, m.end() - 1)
+        text = body[ci:cj]
+        if count(text) or ASSIGN_ADDRS.search(text):
+            inside += text
+            outside = outside.replace(text, " ")
+            names.append(m.group(1))
+    registered = 0
+    for nm in names:
+        if nm:
+            registered += len(re.findall(r"\.OnCommit\(\s*%s\s*\)" % re.escape(nm), body))
+        else:
+            registered += len(re.findall(r"\.OnCommit\(\s*func\(\)", body))
+    if n_on == 1 and registered == 1 and len(names) == 1 and count(inside) == want and extra(inside) \
+            and count(outside) == 0 and not ASSIGN_ADDRS.search(outside) and re.search(r"ns\.Tx\(\)", body):
+        return False
+    raise ExtractError("%s: %s: OnCommit is used but the memory update is not exactly one registered closure" % (path, fn))
 
 
 def _run_probe(repo):
@@ -195,16 +251,24 @@ def probe_facts(repo):
     extend_updates_memory_eagerly - the witness of finding S10 (corpus/C08/s10_extend_in_failed_commit.json,
       w_extend): ExtendAddresses to index next+n inside a rolled-back transaction; the key count afterwards is
       next+n+1 iff extendAddresses assigned the index before commit, and unchanged iff it defers it.  All advanced
-      -> true, none -> false, a mix fails the probe path.
+      -> true, none -> false, a mix fails the probe path.  Either way a COMMITTED extension must leave the count,
+      the last address and a restarted manager's count at last+1 (a deferred update that is not registered, or
+      not run, shows here): otherwise the probe path fails.
 
-    rename_updates_cached_name - the witnesses of finding S11 and of the seeded 'watch-only arm forgets the cache'
-      change (corpus/C08/s11_rename_in_aborted_tx.json, w_rename): for the default account, a new default account,
-      an imported xpub account and one with a schema override: AccountProperties (caches the account), a COMMITTED
-      RenameAccount - the cached name must be the new one (as AccountName, which reads the database, says) - then a
-      rolled-back RenameAccount - the cached name must be the rolled-back one while the database keeps the committed
-      one.  true iff all instances behave so (the model updates the cache before commit, for both row kinds); any
-      instance that keeps the old cached name after the committed rename, or does not show the rolled-back name,
-      makes the fact false."""
+    rename_updates_memory_eagerly / rename_covers_both_row_kinds - the witnesses of finding S11 and of the seeded
+      'watch-only arm forgets the cache' change (corpus/C08/s11_rename_in_aborted_tx.json, w_rename): for the default
+      account, a new default account, an imported xpub account and one with a schema override: AccountProperties
+      (caches the account), a COMMITTED RenameAccount - the cached name must be the new one (as AccountName, which
+      reads the database, says) - then a rolled-back RenameAccount: the cached name is the rolled-back one (eager)
+      or stays the committed one (deferred) while the database keeps the committed one.  The default accounts decide
+      rename_updates_memory_eagerly (all eager -> true, all deferred -> false, anything else fails the probe path);
+      rename_covers_both_row_kinds is true iff the imported accounts show the same pattern.
+
+    extend_records_fingerprint - the witness of finding S14 (corpus/C08/s14_extend_drops_fingerprint.json): an imported
+      account with master-key fingerprint 7 / 0x11223344, extended in a committed transaction (cold and warm account
+      cache, both branches); Address(a).DerivationInfo() of every extended address in the running manager and in a
+      restarted one.  The restarted manager must report the account's fingerprint (else the probe path fails); true
+      iff the running manager reports the same."""
     obs = _run_probe(repo)
     n = 0
     # read-back
@@ -246,21 +310,50 @@ def probe_facts(repo):
         extend_eager = False
     else:
         raise ExtractError("probe: rolled-back ExtendAddresses neither advances nor keeps the index uniformly: %s" % obs["extend_abort"][:3])
-    # rename
-    rename_eager, rwhy = True, ""
+    # either way a COMMITTED extension must arrive in memory and on disk
+    for i in obs["extend_commit"]:
+        n += 1
+        if not (i["after"] == i["to"] + 1 and i["last"] == i["to"] and i["restart_next"] == i["to"] + 1):
+            raise ExtractError("probe: a committed ExtendAddresses does not leave memory and database at last+1: %s" % i)
+    # fingerprint of extended addresses of an imported account
+    extend_fp, fwhy = True, ""
+    for i in obs["extend_fp"]:
+        n += 1
+        if i["restarted"] != [i["fp"]] * len(i["restarted"]):
+            raise ExtractError("probe: a restarted manager does not report the account's fingerprint: %s" % i)
+        if i["running"] != i["restarted"] and extend_fp:
+            extend_fp, fwhy = False, "%s" % i
+
+    # rename: per account kind, eager / deferred / something else
+    def pattern(i):
+        if i["committed_disk"] != "second" or i["aborted_disk"] != "second" or i["committed_mem"] != "second":
+            return "other"
+        return {"third": "eager", "second": "deferred"}.get(i["aborted_mem"], "other")
+    pats = {}
     for i in obs["rename"]:
         n += 1
-        good = (i["committed_mem"] == "second" and i["committed_disk"] == "second"
-                and i["aborted_mem"] == "third" and i["aborted_disk"] == "second")
-        if not good and rename_eager:
-            rename_eager, rwhy = False, "%s" % i
+        pats.setdefault(i["kind"], set()).add(pattern(i))
+    dflt = pats.get("default0", set()) | pats.get("default", set())
+    if dflt == {"eager"}:
+        rename_eager = True
+    elif dflt == {"deferred"}:
+        rename_eager = False
+    else:
+        raise ExtractError("probe: RenameAccount of a default account neither updates the cached name at once nor at commit: %s"
+                           % [i for i in obs["rename"] if i["kind"].startswith("default")][:3])
+    wo = pats.get("watchonly", set()) | pats.get("watchonly_schema", set())
+    rename_both, rwhy = (wo == dflt), ""
+    if not rename_both:
+        rwhy = "%s" % [i for i in obs["rename"] if i["kind"].startswith("watchonly") and pattern(i) not in dflt][:2]
     detail = []
     if not next_in_closure:
         detail.append("next_commits_memory_in_closure=false: " + why)
-    if not rename_eager:
-        detail.append("rename_updates_cached_name=false: " + rwhy)
+    if not rename_both:
+        detail.append("rename_covers_both_row_kinds=false: " + rwhy)
+    if not extend_fp:
+        detail.append("extend_records_fingerprint=false: " + fwhy)
     return dict(rb=rb, next_in_closure=next_in_closure, extend_eager=extend_eager, rename_eager=rename_eager,
-                nprobes=n, detail="; ".join(detail))
+                rename_both=rename_both, extend_fp=extend_fp, nprobes=n, detail="; ".join(detail))
 
 
 def render(f, source_line):
@@ -269,10 +362,19 @@ def render(f, source_line):
     bin/extract rewrites it from the current source. *)
 (* facts source: %s *)
 
+(** Parameters of the model ([MemDisk.params]): the theorems cover every value. *)
+
 (** nextAddresses reads the address it has just written back INTO the address
-    cache before the database transaction commits (loadAndCacheAddress).
-    A parameter of the model: the theorems cover both values. *)
+    cache before the database transaction commits (loadAndCacheAddress). *)
 Definition next_caches_read_back : bool := %s.
+
+(** extendAddresses updates next index / last address / address cache at once,
+    before commit (false: in a closure registered with OnCommit). *)
+Definition extend_updates_memory_eagerly : bool := %s.
+
+(** RenameAccount updates the cached account name at once, before commit
+    (false: in a closure registered with OnCommit). *)
+Definition rename_updates_memory_eagerly : bool := %s.
 
 (** Assumptions the model transcribes (Properties/C08.v obliges each to be true). *)
 
@@ -280,14 +382,15 @@ Definition next_caches_read_back : bool := %s.
     its OnCommit closure, and the closure is registered with the transaction. *)
 Definition next_commits_memory_in_closure : bool := %s.
 
-(** extendAddresses updates next index / last address / address cache at once,
-    before commit. *)
-Definition extend_updates_memory_eagerly : bool := %s.
+(** RenameAccount updates the cached account name for default and watch-only
+    account rows alike. *)
+Definition rename_covers_both_row_kinds : bool := %s.
 
-(** RenameAccount updates the cached account name at once, for default and
-    watch-only account rows alike. *)
-Definition rename_updates_cached_name : bool := %s.
-""" % (source_line, b(f["rb"]), b(f["next_in_closure"]), b(f["extend_eager"]), b(f["rename_eager"]))
+(** extendAddresses records the account's master-key fingerprint in the
+    derivation path of the addresses it builds. *)
+Definition extend_records_fingerprint : bool := %s.
+""" % (source_line, b(f["rb"]), b(f["extend_eager"]), b(f["rename_eager"]), b(f["next_in_closure"]),
+       b(f["rename_both"]), b(f["extend_fp"]))
 
 
 def main(repo, outdir, write_if_changed):
